@@ -771,11 +771,16 @@ func r05_13(c *Ctx, rule string) {
 		return c.isCallValueTo(v, "fsutil.newWrappedWriteCloser")
 	}
 	n := 0
+	seen := map[ssa.CallInstruction]bool{}
+	defer c.scope(loop)()
 	for _, fn := range c.P.AllModFuncs() {
 		if fn.Pkg == nil || fn.Pkg.Pkg.Path() != loop.Pkg.Pkg.Path() {
 			continue
 		}
 		for _, call := range eng.Calls(fn) {
+			if seen[call] {
+				continue
+			}
 			name := c.P.CalleeName(call)
 			if name != "(io.Closer).Close" && name != "fsutil.(*wrappedWriteCloser).Close" {
 				continue
@@ -787,16 +792,28 @@ func r05_13(c *Ctx, rule string) {
 			if recv == nil || !c.DerivesFrom(recv, fromPipes, 4) {
 				continue
 			}
+			seen[call] = true
 			n++
 			con := c.siteName(call) + "/end-of-data-only"
 			_, isCall := call.(*ssa.Call)
-			if fn != loop || !isCall {
+			// in the receive loop, or in a helper reached only from it
+			inLoop := true
+			tops := c.tops(call)
+			for _, t := range tops {
+				if t != loop {
+					inLoop = false
+				}
+			}
+			if len(tops) == 0 || !inLoop || !isCall {
 				c.R.Fail(rule, con, c.pos(call), "a pipe writer is closed outside the DATA arm of the receive loop (or by a go/defer statement): the waiting file goroutine sees a clean end of data and the entry is reported with the digest of a truncated file")
 				continue
 			}
 			// dominated by the empty-payload edge of a test on len(p.Data)
+			// (the test may sit in the helper that holds the call; its
+			// operand then stands for p.Data at the helper's call site)
 			ok := false
-			for _, b := range loop.Blocks {
+			holder := call.Parent()
+			for _, b := range holder.Blocks {
 				if len(b.Instrs) == 0 {
 					continue
 				}
